@@ -70,6 +70,25 @@ func Run(r *ev.Run, replay string) {
 				r.Count("witness_cases", 1)
 			}
 		}
+		// Fixed cases next to the generated ones: constraints that are white
+		// space only (they mean "everything"), and numbers just below the
+		// largest a version can hold, in every position and under every
+		// operator that computes a bound from them (the successor of the
+		// largest but one is the recorded max-int-component finding).
+		{
+			bg := []string{sg.pfx + "1.0.0", sg.pfx + "0.0.0", sg.pfx + "9223372036854775800.0.0"}
+			for _, ws := range []string{"", " ", "\t", " \t ", "\n", "\t\t", " \r\n "} {
+				one(r, sg, ws, bg)
+				r.Count("fixed_cases:"+sg.name, 1)
+			}
+			for k := int64(1); k <= 8; k++ {
+				n := fmt.Sprint(int64(9223372036854775807) - k)
+				for _, c := range []string{">" + n, ">=" + n, "<" + n, "<=" + n, "^" + n, "~" + n, n, n + ".x", ">1.2." + n, "1." + n + ".3", ">1." + n, "<=0.0." + n, "^0." + n + ".1", "~1." + n, sg.pfx + n + ".1.2", sg.pfx + "1." + n + ".2-pre", "[" + n + ", )", "(, 1." + n + "]", "[1.2." + n + "]"} {
+					one(r, sg, c, bg)
+					r.Count("fixed_cases:"+sg.name, 1)
+				}
+			}
+		}
 		for sh := 0; sh < 4; sh++ {
 			wg.Add(1)
 			go func(sg sysgen, sh int) {
